@@ -245,6 +245,24 @@ fn stale_frontier_scenario(out: &mut NdjsonWriter) {
         r.scan(r.abs(5), 1);
         r.scan(r.abs(6), 1);
     }
+    // the subtree-root variant (known finding C06-stale-subtree-root-after-reorg): a wallet born just below a shard
+    // boundary is given the roots of the shards the chain completes, scans, is rewound below their completion and
+    // scans a different continuation that completes the shards with other leaves
+    {
+        let mut r = Run::sharded(out, 9001, false, 65536 - 3, 65536 - 2, json!("K roots"));
+        for i in 0..6u64 {
+            r.recv(if i % 2 == 0 { Pool::Sapling } else { Pool::Orchard }, 50_000 + i, false);
+        }
+        r.put_roots();
+        r.tip_top();
+        r.scan(r.abs(1), 10);
+        r.trunc(r.abs(1), true);
+        for i in 0..6u64 {
+            r.recv(if i % 2 == 0 { Pool::Orchard } else { Pool::Sapling }, 60_000 + i, false);
+        }
+        r.tip_top();
+        r.scan(r.abs(2), 10);
+    }
 }
 
 /// C15 termination: chains with notes in random places (so scans discover notes and the wallet extends
